@@ -86,6 +86,11 @@ Proof.
   pose proof (exp_len_le t3). lia.
 Qed.
 
+Lemma if_some_inv : forall (b : bool) (A : Type) (x y : A), (if b then Some x else None) = Some y -> x = y.
+Proof. intros b A x y H. destruct b; [now inversion H|discriminate]. Qed.
+
+Ltac split3 := split; [|split].
+
 Section Ops.
   Variable v : variant.
   Hypothesis Hfo : fix_offset v = true.
@@ -113,11 +118,11 @@ Section Ops.
     - unfold parse_long in H. destruct (split_sign w) as [[ng sl] t] eqn:Es. apply split_sign_length in Es.
       pose proof (take_while_length_le is_digit t) as L.
       destruct (take_while is_digit t) as [|x xs] eqn:Et; [discriminate|]. rewrite ?Et in L.
-      match type of H with (if ?c then _ else _) = _ => destruct c end; [|discriminate]. inversion H; subst. simpl in *. lia.
+      apply if_some_inv in H. apply (f_equal snd) in H. unfold snd in H. subst c. simpl length in *. lia.
     - unfold parse_ulong in H. destruct (split_sign w) as [[ng sl] t] eqn:Es. apply split_sign_length in Es.
       pose proof (take_while_length_le is_digit t) as L.
       destruct (take_while is_digit t) as [|x xs] eqn:Et; [discriminate|]. rewrite ?Et in L.
-      match type of H with (if ?c then _ else _) = _ => destruct c end; [|discriminate]. inversion H; subst. simpl in *. lia.
+      apply if_some_inv in H. apply (f_equal snd) in H. unfold snd in H. subst c. simpl length in *. lia.
     - unfold parse_float in H. rewrite Hfn in H.
       pose proof (take_while_length_le non_space w) as L.
       destruct (scan_float (take_while non_space w)) as [[kd c0]|] eqn:Es; [|discriminate].
@@ -150,7 +155,7 @@ Section Ops.
   Proof.
     intros s I Ha. pose proof (shift_spec v Hfo total s I) as H. rewrite Ha in H.
     destruct H as (s' & Hs & Post). pose proof (shift_post_rest _ _ _ Post) as R.
-    destruct Post as (I' & more & A & B & C). exists s', more. repeat split; try assumption.
+    destruct Post as (I' & more & A & B & C). exists s', more. split; [exact Hs|]. split; [exact I'|]. split; [exact A|]. split; [exact R|]. split.
     - intros E. destruct C; [contradiction|assumption].
     - unfold mu. rewrite Ha, B, app_length. destruct C as [C|C].
       + destruct more; [contradiction|]. simpl. destruct (at_end s'); lia.
@@ -239,8 +244,8 @@ Section Ops.
     end.
   Proof.
     intros d s I. unfold consume_to_delim.
-    pose proof (find_delim_loop_spec (fuel_of v s) d 0 s I (Nat.le_0_l _) eq_refl (mu_fuel s I)) as H.
-    destruct (find_delim_loop v (fuel_of v s) d 0 s) as [k s'| s'|]; [| |contradiction].
+    pose proof (find_delim_loop_spec (fuel_of s) d 0 s I (Nat.le_0_l _) eq_refl (mu_fuel s I)) as H.
+    destruct (find_delim_loop v (fuel_of s) d 0 s) as [k s'| s'|]; [| |contradiction].
     - destruct H as (I' & R & Hk & Tw & Ne). simpl. split; [now apply advance_inv|].
       destruct (rest s) eqn:Er; [contradiction|]. rewrite <- Er in *. split; [now rewrite Tw|].
       rewrite rest_advance by exact Hk. rewrite R.
@@ -271,9 +276,9 @@ Section Ops.
       { rewrite R1. unfold rest. fold a. rewrite skipn_app_le by lia. rewrite Hl, skipn_all. reflexivity. }
       destruct (advance_facts k s) as (_ & Ae & _).
       destruct (at_end s) eqn:Ha.
-      + rewrite shift_none by (now rewrite Ae). split; [exact I1|].
+      + rewrite shift_none by exact Ae. split; [exact I1|].
         rewrite R1', Rd, (inv_end _ _ I Ha). split; reflexivity.
-      + destruct (shift_some (advance k s) I1 (eq_trans Ae Ha)) as (s' & more & Hsh & I' & Av & R & Me & Mu). rewrite Hsh.
+      + destruct (shift_some (advance k s) I1 Ae) as (s' & more & Hsh & I' & Av & R & Me & Mu). rewrite Hsh.
         destruct (avail s') as [|x xs] eqn:Eav.
         * (* nothing arrived: end of input *)
           split; [exact I'|]. rewrite R, R1', Rd.
@@ -319,9 +324,9 @@ Section Ops.
       { rewrite R1. unfold rest. fold a. rewrite skipn_app_le by lia. rewrite Hl, skipn_all. reflexivity. }
       destruct (advance_facts k s) as (_ & Ae & _).
       destruct (at_end s) eqn:Ha.
-      + rewrite shift_none by (now rewrite Ae). split; [exact I1|].
+      + rewrite shift_none by exact Ae. split; [exact I1|].
         rewrite R1', Rd, (inv_end _ _ I Ha). split; [reflexivity|now left].
-      + destruct (shift_some (advance k s) I1 (eq_trans Ae Ha)) as (s' & more & Hsh & I' & Av & R & Me & Mu). rewrite Hsh.
+      + destruct (shift_some (advance k s) I1 Ae) as (s' & more & Hsh & I' & Av & R & Me & Mu). rewrite Hsh.
         destruct (avail s') as [|x xs] eqn:Eav.
         * split; [exact I'|].
           assert (more = []) by (destruct (avail (advance k s)); destruct more; simpl in Av; congruence).
@@ -377,49 +382,49 @@ Section Ops.
   Lemma line_ok : forall d st s, Inv total s -> step_ok (OLine d st) s.
   Proof.
     intros d st s I. unfold step_ok. simpl. unfold read_line.
-    pose proof (read_line_loop_spec (fuel_of v s) d st 0 s I (Nat.le_0_l _) eq_refl (mu_fuel s I)) as (I' & E).
-    destruct (read_line_loop v (fuel_of v s) d st 0 s) as [r s']. simpl in *.
-    destruct (spec_line d st (rest s)) as [r0 rest']. inversion E; subst. repeat split; [exact I'|apply res_agree_refl].
+    pose proof (read_line_loop_spec (fuel_of s) d st 0 s I (Nat.le_0_l _) eq_refl (mu_fuel s I)) as (I' & E).
+    destruct (read_line_loop v (fuel_of s) d st 0 s) as [r s']. simpl in *.
+    destruct (spec_line d st (rest s)) as [r0 rest']. inversion E; subst. split3; [exact I'|reflexivity|apply res_agree_refl].
   Qed.
 
   Lemma skip_ok : forall s, Inv total s -> step_ok OSkip s.
   Proof.
     intros s I. unfold step_ok. simpl. unfold skip_spaces, spec_skip.
-    pose proof (skip_spaces_loop_spec (fuel_of v s) is_space s I (mu_fuel s I)) as H.
-    destruct (skip_spaces_loop v (fuel_of v s) is_space s) as [u s'|s'|]; [| |contradiction].
+    pose proof (skip_spaces_loop_spec (fuel_of s) is_space s I (mu_fuel s I)) as H.
+    destruct (skip_spaces_loop v (fuel_of s) is_space s) as [u s'|s'|]; [| |contradiction].
     - destruct H as (I' & R). rewrite <- R. destruct (rest s') eqn:Er.
-      + repeat split; [exact I'|exact Er|]. right. split; [reflexivity|now right].
-      + repeat split; [exact I'|exact Er|apply res_agree_refl].
-    - destruct H as (I' & R1 & R2). rewrite R2. repeat split; [exact I'|exact R1|apply res_agree_refl].
+      + split3; [exact I'|reflexivity|]. right. split; [reflexivity|now right].
+      + split3; [exact I'|reflexivity|apply res_agree_refl].
+    - destruct H as (I' & R1 & R2). rewrite R2. split3; [exact I'|exact R1|apply res_agree_refl].
   Qed.
 
   Lemma delim_ok : forall s, Inv total s -> step_ok ODelim s.
   Proof.
     intros s I. unfold step_ok. simpl. unfold read_delimited, spec_delimited.
-    pose proof (skip_spaces_loop_spec (fuel_of v s) is_space s I (mu_fuel s I)) as H.
-    destruct (skip_spaces_loop v (fuel_of v s) is_space s) as [u s1|s1|]; [| |contradiction].
+    pose proof (skip_spaces_loop_spec (fuel_of s) is_space s I (mu_fuel s I)) as H.
+    destruct (skip_spaces_loop v (fuel_of s) is_space s) as [u s1|s1|]; [| |contradiction].
     - destruct H as (I1 & R1). rewrite <- R1.
       pose proof (consume_to_delim_spec is_space s1 I1) as (I2 & C).
       destruct (consume_to_delim v is_space s1) as [r s2]. simpl in *.
       destruct (rest s1) eqn:Er.
-      + destruct C as (C1 & C2). subst r. repeat split; [exact I2|exact C2|apply res_agree_refl].
-      + destruct C as (C1 & C2). subst r. repeat split; [exact I2|exact C2|apply res_agree_refl].
-    - destruct H as (I1 & R1 & R2). rewrite R2. repeat split; [exact I1|exact R1|apply res_agree_refl].
+      + destruct C as (C1 & C2). subst r. split3; [exact I2|exact C2|apply res_agree_refl].
+      + destruct C as (C1 & C2). subst r. split3; [exact I2|exact C2|apply res_agree_refl].
+    - destruct H as (I1 & R1 & R2). rewrite R2. split3; [exact I1|exact R1|apply res_agree_refl].
   Qed.
 
   Lemma word_ok : forall s, Inv total s -> step_ok OWord s.
   Proof.
     intros s I. unfold step_ok. simpl. unfold read_word_same_line, spec_word_same_line.
     change (fun b => is_space b && negb (b =? 10)%N) with (word_gap is_space).
-    pose proof (word_skip_loop_spec (fuel_of v s) is_space s I (mu_fuel s I)) as H.
-    destruct (word_skip_loop v (fuel_of v s) is_space s) as [[|] s1|s1|]; [| |contradiction|contradiction].
+    pose proof (word_skip_loop_spec (fuel_of s) is_space s I (mu_fuel s I)) as H.
+    destruct (word_skip_loop v (fuel_of s) is_space s) as [[|] s1|s1|]; [| |contradiction|contradiction].
     - destruct H as (I1 & R1 & b & t & Rb & Db). rewrite <- R1, Rb, Db. rewrite <- Rb.
       pose proof (consume_to_delim_spec is_space s1 I1) as (I2 & C).
       destruct (consume_to_delim v is_space s1) as [r s2]. simpl in *. rewrite Rb in C. rewrite <- Rb in C.
-      destruct C as (C1 & C2). subst r. repeat split; [exact I2|exact C2|apply res_agree_refl].
+      destruct C as (C1 & C2). subst r. split3; [exact I2|exact C2|apply res_agree_refl].
     - destruct H as (I1 & R1 & [Hn|(b & t & Rb & Db)]); rewrite <- R1.
-      + rewrite Hn. repeat split; [exact I1|exact Hn|apply res_agree_refl].
-      + rewrite Rb, Db. repeat split; [exact I1|exact Rb|apply res_agree_refl].
+      + rewrite Hn. split3; [exact I1|reflexivity|apply res_agree_refl].
+      + rewrite Rb, Db. split3; [exact I1|reflexivity|apply res_agree_refl].
   Qed.
 
   Lemma number_ok : forall k s, Inv total s ->
@@ -428,24 +433,24 @@ Section Ops.
     Inv total s' /\ rest s' = rest' /\ res_agree r0 r.
   Proof.
     intros k s I. unfold read_number, spec_number.
-    pose proof (skip_spaces_loop_spec (fuel_of v s) is_space s I (mu_fuel s I)) as H.
-    destruct (skip_spaces_loop v (fuel_of v s) is_space s) as [u s1|s1|]; [| |contradiction].
+    pose proof (skip_spaces_loop_spec (fuel_of s) is_space s I (mu_fuel s I)) as H.
+    destruct (skip_spaces_loop v (fuel_of s) is_space s) as [u s1|s1|]; [| |contradiction].
     - destruct H as (I1 & R1). rewrite <- R1.
-      pose proof (number_loop_spec (fuel_of v s1) s1 I1 (mu_fuel s1 I1)) as H2.
-      destruct (number_loop v (fuel_of v s1) s1) as [w s2|s2|]; [|contradiction|contradiction].
+      pose proof (number_loop_spec (fuel_of s1) s1 I1 (mu_fuel s1 I1)) as H2.
+      destruct (number_loop v (fuel_of s1) s1) as [w s2|s2|]; [|contradiction|contradiction].
       destruct H2 as (I2 & R2 & Lw & Tw).
       rewrite (parse_number_cut k w), Tw.
       destruct (rest s1) as [|b t] eqn:Er.
       + (* exhausted: the parser sees the empty string *)
-        simpl. rewrite parse_number_nil. repeat split; [exact I2|now rewrite R2|]. right. split; [reflexivity|now left].
+        simpl. rewrite parse_number_nil. split3; [exact I2|now rewrite R2|]. right. split; [reflexivity|now left].
       + rewrite <- Er in *. unfold spec_parse. rewrite <- (parse_number_repaired k).
         rewrite <- (parse_number_cut k (rest s1)). rewrite (parse_number_cut k (rest s1)).
         destruct (parse_number v k (take_while non_space (rest s1))) as [[r c]|] eqn:Ep.
         * assert (Hc : c <= length (avail s2)).
           { apply parse_number_count in Ep. rewrite <- Tw in Ep. pose proof (take_while_length_le non_space w). lia. }
-          repeat split; [now apply advance_inv|rewrite rest_advance by exact Hc; now rewrite R2|apply res_agree_refl].
-        * repeat split; [exact I2|exact R2|apply res_agree_refl].
-    - destruct H as (I1 & R1 & R2). rewrite R2. repeat split; [exact I1|exact R1|apply res_agree_refl].
+          split3; [now apply advance_inv|rewrite rest_advance by exact Hc; now rewrite R2|apply res_agree_refl].
+        * split3; [exact I2|exact R2|apply res_agree_refl].
+    - destruct H as (I1 & R1 & R2). rewrite R2. split3; [exact I1|exact R1|apply res_agree_refl].
   Qed.
 
   Lemma peek_spec : forall s, Inv total s ->
@@ -472,16 +477,16 @@ Section Ops.
   Proof.
     intros s I. unfold step_ok. simpl. pose proof (peek_spec s I) as (I' & R & H).
     destruct (peek v s) as [r s']. simpl in *. unfold spec_peek. destruct (rest s) eqn:Er.
-    - subst r. repeat split; [exact I'|exact R|apply res_agree_refl].
-    - destruct H as (H & _). subst r. repeat split; [exact I'|exact R|apply res_agree_refl].
+    - subst r. split3; [exact I'|exact R|apply res_agree_refl].
+    - destruct H as (H & _). subst r. split3; [exact I'|exact R|apply res_agree_refl].
   Qed.
 
   Lemma get_ok : forall s, Inv total s -> step_ok OGet s.
   Proof.
     intros s I. unfold step_ok. simpl. unfold get. pose proof (peek_spec s I) as (I' & R & H).
     destruct (peek v s) as [r s']. simpl in *. unfold spec_get. destruct (rest s) eqn:Er.
-    - subst r. repeat split; [exact I'|exact R|apply res_agree_refl].
-    - destruct H as (H & L). subst r. repeat split; [now apply advance_inv|rewrite rest_advance by exact L; now rewrite R|apply res_agree_refl].
+    - subst r. split3; [exact I'|exact R|apply res_agree_refl].
+    - destruct H as (H & L). subst r. split3; [now apply advance_inv|rewrite rest_advance by exact L; now rewrite R|apply res_agree_refl].
   Qed.
 
   Theorem op_refines : forall o s, Inv total s -> step_ok o s.
